@@ -125,7 +125,7 @@ func oneCase(run *hlib.Run, rng *hlib.Rng, tp tuple) {
 		sort.Strings(lost)
 		return lost
 	}
-	if !waitFor(3*time.Second, func() bool { return allActive(members) && len(readable(members)) == 0 }) {
+	if !waitFor(6*time.Second, func() bool { return allActive(members) && len(readable(members)) == 0 }) {
 		run.Count("setup-not-stable")
 		return
 	}
@@ -190,7 +190,7 @@ func oneCase(run *hlib.Run, rng *hlib.Rng, tp tuple) {
 		remaining = append(remaining, subject)
 	}
 	r.Fault = nil
-	recovered := waitFor(2500*time.Millisecond, func() bool { return allActive(remaining) && len(readable(remaining)) == 0 })
+	recovered := waitFor(6*time.Second, func() bool { return allActive(remaining) && len(readable(remaining)) == 0 })
 	var stuck []string
 	var states []string
 	sort.Slice(remaining, func(i, j int) bool { return remaining[i] < remaining[j] })
